@@ -465,6 +465,26 @@ def uncg_case(ctx, rng, c, cgsys):
         ctx.violation("uncg:wrapping", "un-coarse-grained trajectory does not carry the units / times / fine system / map", case,
                       impl={"units": str(out.data.units), "cgmap": got_map})
     op = {"op": "uncoarsegrain", "N": N, "ns": ns, "ncg": ng, "nf": n, "im": list(im), "cg": [rstr(v) for v in data]}
+    # model fidelity outside the property's domain: maps the function itself does not validate (entries below -1 wrap like
+    # Python list indices, entries >= number of coarse nodes and short maps raise); compared with the model only
+    if rng.random() < 0.3:
+        from strengths.coarsegrain import uncoarsegrain_trajectory_data
+        bad = list(im)
+        kind = rng.choice(["below", "above", "short"])
+        if kind == "below":
+            bad[rng.randrange(n)] = -rng.randint(2, ng + 2)
+        elif kind == "above":
+            bad[rng.randrange(n)] = ng + rng.randint(0, 1)
+        else:
+            bad = bad[:-1]
+        try:
+            r = uncoarsegrain_trajectory_data(traj, fine.space, bad)
+            bvals = [float(v) for v in np.asarray(r.value).ravel()]
+        except Exception as e:  # noqa
+            bvals = "error"
+        ctx.count("uncoarsegrain_unvalidated_map_" + kind)
+        ctx.extra.setdefault("_uncg_bad", []).append(({"op": "uncoarsegrain", "N": N, "ns": ns, "ncg": ng, "nf": n, "im": bad,
+                                                     "cg": [rstr(v) for v in data]}, bvals, {"sys": case_json(c), "uncg_bad_map": bad}))
     return op, (vals, case)
 
 
@@ -733,6 +753,13 @@ def run(ctx):
                 continue
             if "error" in r or len(r["ok"]) != len(vals) or not all(close(v, rparse(q), mag=1, rel=1e-12) for v, q in zip(vals, r["ok"])):
                 ctx.disagree("uncoarsegrain", case, vals[:40], r if "error" in r else r["ok"][:40])
+        badl = ctx.extra.pop("_uncg_bad", [])
+        for r, (op, bvals, bcase) in zip(ctx.model.run([b[0] for b in badl]), badl):
+            if r is None:
+                continue
+            if ("error" in r) != (bvals == "error") or ("ok" in r and (len(r["ok"]) != len(bvals) or
+                                                                        not all(close(v, rparse(q), mag=1, rel=1e-12) for v, q in zip(bvals, r["ok"])))):
+                ctx.disagree("uncoarsegrain", bcase, bvals if bvals == "error" else bvals[:40], r if "error" in r else r["ok"][:40])
         if ctx.time_left() < 25:
             ctx.notes.append("time budget reached after %d systems" % (b0 + len(chunk)))
             break
